@@ -168,7 +168,7 @@ harness!(c12_nested_1, split2(2, 2, |i, j| nested(1, i, j)));
 harness!(c12_nested_2, split2(2, 2, |i, j| nested(2, i, j)));
 harness!(c12_nested_3, split2(2, 2, |i, j| nested(3, i, j)));
 
-//@ props: C12
+//@ props: UNREACHED-C12
 //@ tier: thorough
 //@ timeout: 7200
 //@ harness: c12_arr_scalar_w, c12_arr2_arr1_w, c12_nested_0_w, c12_nested_1_w, c12_nested_2_w, c12_nested_3_w
